@@ -153,6 +153,8 @@ func (zns *ZnPMServer) StartMaster(connUrl string, cfg ZnPMServerConfig) error {
 	go zns.readNamedPipe(p)
 
 	//// maintain child state (DO NOT UPDATE child data directly!)
+	// the initial workers spawned below are reserved up front, like every later batch
+	zns.refCount = cfg.InitProcs
 	go zns.maintainChildState(cfg, ln, p)
 
 	for i := 0; i < cfg.InitProcs; i++ {
@@ -260,8 +262,9 @@ func (zns *ZnPMServer) maintainChildState(cfg ZnPMServerConfig, ln *net.TCPListe
 		zns.verifTick()
 		select {
 		case aw := <-zns.addChan:
+			// refCount already counts this child: its slot was reserved when the spawn
+			// was decided (lowering it here would forget batches still being spawned)
 			zns.childs[aw.pid] = aw
-			zns.refCount = len(zns.childs)
 		case uw := <-zns.updateChan:
 			if oldState, ok := zns.childs[uw.pid]; ok {
 				zns.childs[uw.pid] = workerState{
